@@ -2275,7 +2275,7 @@ theorem constructWith_some {cls : ClassDef} {bid : Oid} {b v : VarObj}
     v.cls = cls ∧ v.baseline = some bid ∧
     v.valueType = cls.valueType.getD b.valueType ∧ v.default = cls.default.getD b.default ∧
     v.entity = cls.entity.getD b.entity ∧ v.defPeriod = cls.defPeriod.getD b.defPeriod ∧
-    v.endDate = (match cls.endDate with | some e => some e | none => b.endDate) ∧
+    v.endDate = declaredEnd cls.endDate b.endDate ∧
     v.setInput = (match cls.setInput with | some x => some x | none => b.setInput) ∧
     v.isNeutralized = false ∧
     ∃ decl, declaredFormulas v.endDate cls.formulas [] = .ok decl ∧ v.formulas = mergeBaseline decl b.formulas := by
@@ -2286,17 +2286,16 @@ theorem constructWith_some {cls : ClassDef} {bid : Oid} {b v : VarObj}
   · rename_i decl hd
     simp only [Except.ok.injEq] at hc
     subst hc
-    refine ⟨rfl, rfl, rfl, ?_, rfl, rfl, ?_, ?_, rfl, decl, hd, rfl⟩
+    refine ⟨rfl, rfl, rfl, ?_, rfl, rfl, rfl, ?_, rfl, decl, hd, rfl⟩
     · cases cls.default <;> rfl
-    · cases cls.endDate <;> rfl
     · cases cls.setInput <;> rfl
 
 /-- … and without a baseline -/
 theorem constructWith_none {cls : ClassDef} {v : VarObj} (hc : constructWith cls none none = .ok v) :
     v.cls = cls ∧ v.baseline = none ∧ cls.valueType = some v.valueType ∧
     v.default = cls.default.getD (typeDefault v.valueType) ∧ cls.entity = some v.entity ∧
-    cls.defPeriod = some v.defPeriod ∧ v.endDate = cls.endDate ∧ v.setInput = cls.setInput ∧
-    v.isNeutralized = false ∧ declaredFormulas cls.endDate cls.formulas [] = .ok v.formulas := by
+    cls.defPeriod = some v.defPeriod ∧ v.endDate = declaredEnd cls.endDate none ∧ v.setInput = cls.setInput ∧
+    v.isNeutralized = false ∧ declaredFormulas (declaredEnd cls.endDate none) cls.formulas [] = .ok v.formulas := by
   obtain ⟨name, vt, df, ent, dp, ed, si, fs⟩ := cls
   unfold constructWith at hc
   cases vt with
